@@ -138,10 +138,13 @@ theorem stopRetry_q (x : Nat) (s : St) (h : QG x s) : QG x (stopRetry s) ∧ ret
     | none => rfl
     | dead => rfl
 
+theorem stopRetry_startD (s : St) : (stopRetry s).startD = s.startD := by
+  unfold stopRetry emit; split <;> rfl
+
 /-- `stop()`'s last statements -/
 theorem stopFinish_q (s : St) (h : QG 0 s) (hr : retryPending s.retryCall = false) (ha : activeReq s.requestD = none)
     (hpk : s.parked = none) (hp : s.proc = none) (hl : s.looper = none) (hcr : s.commitReq = none)
-    (hcp : commitPending s.commitCall = false) (hds : s.commitDs = []) :
+    (hcp : commitPending s.commitCall = false) (hds : s.commitDs = []) (hrun : s.startD ≠ .none) :
     QS (stopFinish s) ∧ Stopped (stopFinish s) := by
   unfold stopFinish crash
   simp only []
@@ -149,21 +152,24 @@ theorem stopFinish_q (s : St) (h : QG 0 s) (hr : retryPending s.retryCall = fals
   · exact ⟨⟨by qg_leaf h, rfl⟩, ⟨rfl, hp, hr, rfl, hcr, hcp, hl⟩⟩
   · exact ⟨⟨by qg_leaf h, rfl⟩, ⟨rfl, hp, hr, rfl, hcr, hcp, hl⟩⟩
   · rename_i hn
-    exact ⟨⟨by qg_leaf h, rfl⟩, ⟨hn, hp, hr, rfl, hcr, hcp, hl⟩⟩
+    exact absurd hn hrun
 
-/-- `stop()`, from ANY state the invariant holds in (no shutdown continuation in hand): the invariant holds afterwards
-    and everything is cancelled -/
-theorem stopCore_q (s : St) (h : QG 0 s) : QS (stopCore cfg inner s) ∧ Stopped (stopCore cfg inner s) := by
+/-- `stop()`, from ANY running state the invariant holds in (no shutdown continuation in hand): the invariant holds
+    afterwards, everything is cancelled, and the model reports no crash -/
+theorem stopCore_q (s : St) (h : QG 0 s) (hrun : s.startD ≠ .none) : QS (stopCore cfg inner s) ∧ Stopped (stopCore cfg inner s) := by
   have h0 : QG 0 { s with stopping := true } := by qg_leaf h
   have h1 := stopReq_q (cfg := cfg) 0 _ h0
   have a1 := stopReq_calm cfg { s with stopping := true }
   have k1 := stopReq_keeps0 cfg { s with stopping := true }
-  obtain ⟨h2, p2, a2, pk2, _, _, st2⟩ := stopBlockProc_q (cfg := cfg) (inner := inner) _ h1 k1.2.1 a1
+  have r1 : (stopReq cfg { s with stopping := true }).startD ≠ .none := fun e => hrun (k1.2.2.2.mp e)
+  obtain ⟨h2, p2, a2, pk2, _, sd2, st2⟩ := stopBlockProc_q (cfg := cfg) (inner := inner) _ h1 k1.2.1 a1
   obtain ⟨h3, r3, p3, q3, pk3, st3⟩ := stopRetry_q 0 _ h2
+  have sd3 := stopRetry_startD (stopBlockProc cfg inner (stopReq cfg { s with stopping := true }))
   unfold stopCore
   simp only []
-  generalize stopRetry (stopBlockProc cfg inner (stopReq cfg { s with stopping := true })) = s3 at h3 r3 p3 q3 pk3 st3
+  generalize stopRetry (stopBlockProc cfg inner (stopReq cfg { s with stopping := true })) = s3 at h3 r3 p3 q3 pk3 st3 sd3
   have st3' : s3.stopping = true := st3.trans st2
+  have r3' : s3.startD ≠ .none := by rw [sd3, sd2]; exact r1
   obtain ⟨h4, f4, d4⟩ := cancelWaiters_stop_q (cfg := cfg) (inner := inner) (s3.commitDs.length + 4) s3 h3 st3' (by omega)
   generalize cancelWaiters cfg inner (s3.commitDs.length + 4) s3 = s4 at h4 f4 d4
   obtain ⟨h5, f5, c5, d5⟩ := stopCommitReq_q (cfg := cfg) (inner := inner) s4 h4 (by rw [f4.2.2.2.2.1]; exact st3') d4
@@ -173,7 +179,7 @@ theorem stopCore_q (s : St) (h : QG 0 s) : QS (stopCore cfg inner s) ∧ Stopped
   generalize stopTimers s5 = s6 at h6 f6 c6 l6 cr6 d6
   have f : Fr2 s3 s6 := Fr2.trans (Fr2.trans f4 f5) f6
   exact stopFinish_q s6 h6 (by rw [f.2.2.1]; exact r3) (by rw [f.1, q3]; exact a2) (by rw [f.2.1, pk3]; exact pk2)
-    (by rw [f.2.2.2.2.2, p3]; exact p2) l6 (cr6.trans c5) c6 (d6.trans d5)
+    (by rw [f.2.2.2.2.2, p3]; exact p2) l6 (cr6.trans c5) c6 (d6.trans d5) (by rw [f.2.2.2.1]; exact r3')
 
 /-- `stop()` as an API call -/
 theorem stop_q (s : St) (h : QS s) : QS (stop cfg inner s) ∧ (stop cfg inner s).startD = .none ∧
@@ -183,7 +189,8 @@ theorem stop_q (s : St) (h : QS s) : QS (stop cfg inner s) ∧ (stop cfg inner s
   · rename_i hn
     have hn' : s.startD = .none := by simpa using hn
     exact ⟨⟨by obtain ⟨h, _⟩ := h; qg_leaf h, h.2⟩, hn', fun hp => hp⟩
-  · obtain ⟨h1, s1⟩ := stopCore_q (cfg := cfg) (inner := inner) s h.1
+  · rename_i hn
+    obtain ⟨h1, s1⟩ := stopCore_q (cfg := cfg) (inner := inner) s h.1 (by simpa using hn)
     have hle := lists_empty h1.1 s1.retry s1.ccall (by simp [looperDue, s1.looper]) s1.req s1.creq
     have hp1 := s1.proc
     have hs1 := s1.startD
